@@ -593,6 +593,29 @@ func vc05Specs(rng *vh.Rng, ver int, thorough bool, nCoq int) []*vc05Spec {
 		s.Meta, s.MetaOK = vc05Meta(rng, ver, 1)
 		specs = append(specs, s)
 	}
+	// every one of the 65 536 prefixes populated (the ends of every prefix table / counter), and all but one
+	for i, missing := range []int{-1, 0xFFFF, int(rng.U64() % 65536)} {
+		var ps []uint16
+		var pops []int
+		for p := 0; p < 65536; p++ {
+			if p == missing {
+				continue
+			}
+			ps = append(ps, uint16(p))
+			n := 1
+			if rng.Intn(50) == 0 {
+				n = 2 + rng.Intn(3)
+			}
+			pops = append(pops, n)
+		}
+		s := vc05PopSpec(rng, name("allprefixes", i), "all-prefixes-populated", ps, pops, 2, 80000)
+		if missing >= 0 {
+			s.Kind = "all-prefixes-but-one"
+			s.Probes = append(s.Probes, vc05Sig(rng, uint16(missing)), vc05Sig(rng, uint16(missing)))
+		}
+		s.Meta, s.MetaOK = vc05Meta(rng, ver, 1)
+		specs = append(specs, s)
+	}
 	if thorough {
 		ps := vc05DistinctPrefixes(rng, 16)
 		pops := make([]int, 16)
